@@ -4,3 +4,4 @@ import AgProofs.Props.C03
 import AgProofs.Props.C15
 import AgProofs.Props.C17
 import AgProofs.Props.C01
+import AgProofs.Props.C14
